@@ -8,8 +8,10 @@ from . import prototrace as T, protocorr as PC, protomon as MON
 ALPHABET = 'DNLAGSBXFHUCEgdRr'
 
 
-def req(k, at=0, reg=None, count=2):
-    return dict(op='req', at=at, k=k, reg=100 + 10 * k if reg is None else reg, count=count)
+def req(k, at=0, reg=None, count=2, what='read'):
+    d = dict(op='req', at=at, k=k, reg=100 + 10 * k if reg is None else reg, count=count)
+    if what != 'read': d['what'] = what       # 'write': single register, value = count; 'multi': count registers of payload
+    return d
 
 
 def seq_reqs(n, gap=20000):
@@ -79,6 +81,14 @@ def gen_c05(ctx):
             sc = base(k, ka, r, letters, default='D', phases=[seq_reqs(n + 1)])
             sc['history'] = [c[0] for c in combo]
             out.append(sc)
+        # the silent request starts within one timeout of the end of the previous one(s) (anything armed for an earlier request and not
+        # disarmed when that request ended -- by a transport error, a peer close, a rejection, an answer -- is still pending)
+        quick_end = [('error', 'R'), ('closed', 'C'), ('send-error', 'E'), ('rejected', 'X'), ('success', 'N'), ('late-error', 'r'), ('late-answer', 'L')]
+        for gap in (100, 300, 600, 900):
+            for name, l in quick_end:
+                sc = base(k, ka, r, l, default='D', phases=[seq_reqs(2, gap=gap)]); sc['history'] = [name]; out.append(sc)
+            for (n1, l1), (n2, l2) in ([(a, b) for a in quick_end[:5] for b in quick_end[:5]] if ctx.deep else [(ctx.rng.choice(quick_end[:5]), ctx.rng.choice(quick_end[:5]))]):
+                sc = base(k, ka, r, l1 + l2, default='D', phases=[seq_reqs(3, gap=gap)]); sc['history'] = [n1, n2]; out.append(sc)
         # use from a new event loop
         out.append(base(k, ka, r, 'N', default='D', phases=[seq_reqs(1), [req(5)]]))
         out.append(base(k, ka, r, 'D' * (r + 1), default='D', phases=[seq_reqs(1), [req(5)]]))
@@ -181,6 +191,14 @@ def gen_c08(ctx):
                 out.append(base(kind, ka, 3, list(pre) + [dict(exc=ctx.rng.choice([1, 2, 3, 4, 6, 11]))], default='N', phases=[seq_reqs(2)]))
             # two consecutive probes rejected with the same code (ET's capability probes)
             out.append(base(kind, ka, 3, ['D', dict(exc=2), dict(exc=2)], default='N', phases=[seq_reqs(3)]))
+    # the exception answer to a WRITE (function 6 -> 0x86) and to a WRITE MULTIPLE (function 16 -> 0x90), first transmission and retransmission
+    for what in ('write', 'multi'):
+        for code in ([1, 2, 3, 4, 6, 11, 9] if not ctx.deep else list(range(0, 13)) + [127, 255]):
+            for kind in ('udp', 'tcp'):
+                for ka in (False, True):
+                    for pre in ([], ['D']):
+                        out.append(base(kind, ka, 2, pre + [dict(exc=code)], default='N',
+                                        phases=[[req(0, 0, reg=47000, count=3, what=what), req(1, 20000, reg=47001, count=2, what=what)]]))
     return out
 
 
